@@ -67,6 +67,27 @@ def gen_interface(r, name):
             {I.Method: iface.addMethod, I.Signal: iface.addSignal, I.Property: iface.addProperty}[type(m)](m)
             if r.random() < 0.3:
                 iface.introspectionXml
+        # a member re-declared under its existing name with another definition
+        g2 = gen.Gen(r, max_depth=2)
+        if desc['methods'] and r.random() < 0.4:
+            n = r.choice(sorted(desc['methods']))
+            si, so = gen_sig(r, g2), gen_sig(r, g2)
+            if G.valid_signature(si) and G.valid_signature(so):
+                iface.introspectionXml
+                iface.addMethod(I.Method(n, arguments=si, returns=so))
+                desc['methods'][n] = (si, so, len(G.split_signature(si)), len(G.split_signature(so)))
+        if desc['signals'] and r.random() < 0.4:
+            n = r.choice(sorted(desc['signals']))
+            sg = gen_sig(r, g2)
+            if G.valid_signature(sg):
+                iface.introspectionXml
+                iface.addSignal(I.Signal(n, arguments=sg))
+                desc['signals'][n] = (sg, len(G.split_signature(sg)))
+        if desc['properties'] and r.random() < 0.4:
+            n = r.choice(sorted(desc['properties']))
+            iface.introspectionXml
+            iface.addProperty(I.Property(n, 'as', readable=True, writeable=True))
+            desc['properties'][n] = ('as', 'readwrite')
         # and a deletion
         for kind, dele in (('methods', iface.delMethod), ('signals', iface.delSignal), ('properties', iface.delProperty)):
             if desc[kind] and r.random() < 0.3:
